@@ -555,14 +555,22 @@ impl Expression {
         let mask = if rhs.bits() <= 64 {
             Expression::shl(
                 expr_const(0xffff_ffff_ffff_ffff, rhs.bits()),
-                Expression::sub(expr_const(rhs.bits() as u64, rhs.bits()), rhs)?,
+                Expression::sub(expr_const(rhs.bits() as u64, rhs.bits()), rhs.clone())?,
             )?
         } else {
             Expression::shl(
                 const_(0, rhs.bits()).sub(&const_(1, rhs.bits()))?.into(),
-                Expression::sub(expr_const(rhs.bits() as u64, rhs.bits()), rhs)?,
+                Expression::sub(expr_const(rhs.bits() as u64, rhs.bits()), rhs.clone())?,
             )?
         };
+
+        // Shifting by more than the width fills every bit with the sign bit;
+        // bits - rhs wraps around above and would lose the mask.
+        let mask = Expression::ite(
+            Expression::cmpltu(expr_const(lhs.bits() as u64, lhs.bits()), rhs)?,
+            Expression::sub(expr_const(0, lhs.bits()), expr_const(1, lhs.bits()))?,
+            mask,
+        )?;
 
         Expression::or(
             expr,
